@@ -11,6 +11,7 @@ import AGH.Lemmas.RewritesRun
 import AGH.Lemmas.RewritesOrder
 import AGH.Lemmas.RewritesDns
 import AGH.Lemmas.RewritesMonitor
+import AGH.Lemmas.RewritesTable
 namespace AGH.C06
 open AGH AGH.Bytes
 
@@ -341,6 +342,37 @@ theorem C06_dns_meets_spec (srt : Bytes → Sorter) (rs : List Raw) (h : Bytes) 
     Spec.dnsSpecOK (prepare rs) h q rc (respondWith srt (prepare rs) h q rc) = true :=
   monitor_dns srt (prepare rs) h q rc hne (prepare_lowerNames rs)
 
+/-! ## The live table over a history of configuration operations -/
+
+/-- Saving the configuration does not change the table the server answers from.
+(Trivially true of the model, where `cloneRewrites` is a faithful copy; the point
+is that the sequence harness now checks it on the code, where home hands
+`WriteDiskConfig` the very `*Config` the filter runs on.) -/
+theorem C06_config_write_preserves_table (tbl : List Entry) :
+    (stepTable tbl .write).1 = tbl := rfl
+
+/-- Add / delete / update through the HTTP handlers (and a config write) turn the
+prepared form of a configured list into the prepared form of the edited list. -/
+theorem C06_edits_yield_prepared (rs : List Raw) (op : TableOp) :
+    (stepTable (prepare rs) op).1 = prepare (Spec.editRaws rs op) :=
+  stepTable_prepare rs op
+
+/-- Stateful form of `C06_model_meets_spec`: after EVERY history of operations
+on a filter created from ANY configured list, the live table is the prepared
+form of the edited list, satisfies the spec's table check, and every lookup is
+acceptable to the monitor. -/
+theorem C06_history_meets_spec (srt : Bytes → Sorter) (rs : List Raw) (ops : List TableOp)
+    (h : Bytes) (q : Nat) :
+    runTable (prepare rs) ops = prepare (ops.foldl Spec.editRaws rs) ∧
+    Spec.tableOK (ops.foldl Spec.editRaws rs) ((runTable (prepare rs) ops).map Spec.rowOf) = true ∧
+    Spec.specOK (prepare (ops.foldl Spec.editRaws rs)) (lower h) q
+      (processRewritesWith srt (runTable (prepare rs) ops) (lower h) q) = true := by
+  have ht := runTable_prepare rs ops
+  refine ⟨ht, ?_, ?_⟩
+  · simp [Spec.tableOK, ht]
+  · rw [ht]
+    exact C06_model_meets_spec srt _ h q
+
 /-! ## Order of entries and tie-breaking of the sort
 
 Full statement (DESIGN: `C06_order_independent`, `C06_sort_agnostic`):
@@ -524,6 +556,21 @@ example : processRewrites [ent "Example.com" "Example.com"] (asc "example.com") 
 /-- regression, C06-F1: a CNAME target written with capitals is followed into the table -/
 example : processRewrites [ent "a.x.com" "B.x.com", ent "b.x.com" "1.1.1.1" (some true)]
     (asc "a.x.com") 1 = ⟨true, asc "b.x.com", [asc "1.1.1.1"]⟩ := by decide +kernel
+
+/-- a history: add, save, update, delete, save -/
+example : runTable (prepare [])
+    [.add ⟨asc "A.x.com", asc "B.x.com", none⟩, .write,
+     .upd (asc "a.x.com") (asc "b.x.com") ⟨asc "a.x.com", asc "1.1.1.1", some (true, asc "1.1.1.1")⟩,
+     .add ⟨asc "c.x.com", asc "AAAA", none⟩, .del (asc "c.x.com") (asc "AAAA"), .write] =
+    [ent "a.x.com" "1.1.1.1" (some true)] := by decide +kernel
+
+/-- deleting with a spelling that is not the stored one removes nothing; an
+update of a missing target fails -/
+example : stepTable [ent "A.x.com" "1.1.1.1" (some true)] (.del (asc "A.x.com") (asc "1.1.1.1")) =
+    ([ent "a.x.com" "1.1.1.1" (some true)], true) := by decide +kernel
+example : (stepTable [ent "a.x.com" "1.1.1.1" (some true)]
+    (.upd (asc "b.x.com") (asc "1.1.1.1") ⟨asc "b.x.com", asc "A", none⟩)).2 = false := by
+  decide +kernel
 
 end Examples
 
